@@ -83,6 +83,46 @@ PIPELINES.append(Pipeline('U_DenseNodes_serialize_field_selection', units=MDUNIT
     replay=('c01_codec', lambda cex, o: ['dense', cex.field(cex.pointer_target('m_options') or cex.pointer_target('self'), 'add_metadata.m_options', 0), 1]),
     note='all 32 metadata subsets x history flag; protobuf builder calls are replaced by a ghost set of written fields'))
 
+# ---- PBF non-dense objects: the Info message carries exactly the enabled metadata with the object's values ---------------------------------
+OBJ = 'include/osmium/osm/object.hpp'
+ITEM = 'include/osmium/memory/item.hpp'
+TS = 'include/osmium/osm/timestamp.hpp'
+
+
+def info_prelude(repo):
+    return (dn_prelude(repo).replace('#define VERIF_FIELD(f) ghost_fields |= (f)', '#define VERIF_FIELD(f) ghost_fields |= (f)\n#define VERIF_FIELDV(f, v) { ghost_fields |= (f); ghost_val_##f = (int64_t)(v); }')
+            + 'typedef int64_t object_id_type; typedef uint64_t unsigned_object_id_type; typedef uint32_t object_version_type; typedef uint32_t user_id_type; typedef uint32_t changeset_id_type; typedef uint32_t item_size_type; typedef uint16_t item_type;\n'
+            + cx.members_struct(repo, [(TS, 'Timestamp')], 'Timestamp') + 'typedef struct Timestamp Timestamp;\n'
+            + cx.members_struct(repo, [(ITEM, 'Item'), (OBJ, 'OSMObject')], 'OSMObject') + 'typedef struct OSMObject OSMObject;\n'
+            + 'int64_t ghost_val_F_version, ghost_val_F_timestamp, ghost_val_F_changeset, ghost_val_F_uid, ghost_val_F_user_sid, ghost_val_F_visible; uint32_t ghost_user_sid;\n'
+            + 'struct PBFOutputFormat { struct pbf_output_options m_options; };\n')
+
+
+ACC = [Unit(OBJ, nm, cls='OSMObject', selftype='const struct OSMObject', sig=sg) for nm, sg in (('version', r'version\(\) const'), ('changeset', r'changeset\(\) const'), ('uid', r'uid\(\) const'), ('deleted', None), ('visible', None))]
+U_meta = Unit(POUT, 'add_meta', cls='PBFOutputFormat', cname='blk_add_meta_info', selftype='struct PBFOutputFormat', ret='void', params=['const OSMObject* object_p'],
+              block=(r'if \(m_options\.add_metadata\.any\(\) \|\| m_options\.add_visible_flag\) \{', r'\n                \}\s*$'),
+              objs={'object_p': 'OSMObject'},
+              pre=[(r'protozero::pbf_builder<OSMFormat::Info> pbf_info\{pbf_object, T::enum_type::optional_Info_info\};', 'VERIF_FIELD(F_DenseInfo);'),
+                   (r'static_cast<uint32_t>\(object\.timestamp\(\)\)', 'object_p->m_timestamp.m_timestamp'),
+                   (r'm_primitive_block->store_in_stringtable_unsigned\(object\.user\(\)\)', 'ghost_user_sid'),
+                   (r'object\.', 'object_p->'),
+                   (r'pbf_info\.add_\w+\(OSMFormat::Info::optional_\w+?_(version|timestamp|changeset|uid|user_sid|visible), ([^;]*)\);', r'VERIF_FIELDV(F_\1, \2)'),
+                   (r'm_options\.add_metadata\.(\w+)\(\)', r'metadata_options_\1(&m_options.add_metadata)')])
+MDBIT = lambda f, b: '((ghost_fields & %s) != 0) == ((self->m_options.add_metadata.m_options & %s) != 0)' % (f, b)
+PIPELINES.append(Pipeline('U_add_meta_info_fields', units=MDUNITS + ACC + [U_meta], prelude=info_prelude, contracts={'blk_add_meta_info': [
+    ('pre:an object within the value domain of the format (version and uid below 2^31)', 'requires',
+     '__CPROVER_is_fresh(self, sizeof(*self)) && __CPROVER_is_fresh(object_p, sizeof(*object_p)) && ghost_fields == 0 && self->m_options.add_metadata.m_options <= md_all && object_p->m_uid <= 2147483647u'),
+    ('post:each metadata field is written exactly when it is enabled', 'ensures', ' && '.join(MDBIT(f, b) for f, b in (('F_version', 'md_version'), ('F_timestamp', 'md_timestamp'), ('F_changeset', 'md_changeset'), ('F_uid', 'md_uid'), ('F_user_sid', 'md_user')))),
+    ('post:the visible flag is written exactly for history files, whatever the metadata subset', 'ensures', '((ghost_fields & F_visible) != 0) == (self->m_options.add_visible_flag != 0)'),
+    ('post:the values written are the attributes of the object', 'ensures',
+     '(!(ghost_fields & F_version) || ghost_val_F_version == object_p->m_version) && (!(ghost_fields & F_timestamp) || ghost_val_F_timestamp == object_p->m_timestamp.m_timestamp) && '
+     '(!(ghost_fields & F_changeset) || ghost_val_F_changeset == object_p->m_changeset) && (!(ghost_fields & F_uid) || ghost_val_F_uid == object_p->m_uid) && '
+     '(!(ghost_fields & F_user_sid) || ghost_val_F_user_sid == ghost_user_sid) && (!(ghost_fields & F_visible) || ghost_val_F_visible == !object_p->m_deleted)'),
+    ('frame', 'assigns', 'ghost_fields, ghost_val_F_version, ghost_val_F_timestamp, ghost_val_F_changeset, ghost_val_F_uid, ghost_val_F_user_sid, ghost_val_F_visible')]},
+    enforce='blk_add_meta_info', harness='void harness(void) { struct PBFOutputFormat* f; const OSMObject* o; blk_add_meta_info(f, o); __CPROVER_assert(0, "canary"); }',
+    replay=('c01_codec', lambda cex, o: ['dense', 'none', 1, 0]), noflags=['--conversion-check'],
+    note='statement block of PBFOutputFormat::add_meta (ways, relations, non-dense nodes); protobuf builder calls replaced by a ghost record of field and value'))
+
 # ---- PBF header bounding box: the writer's conversion against the reader's ---------------------------------------------------------------------------
 def box_prelude(repo):
     return '#include <math.h>\n' + cx.extract_const(repo, PBF, 'lonlat_resolution') + 'enum { coordinate_precision = 10000000 };\n' + cx.extract_const(repo, PBF, 'resolution_convert')
@@ -107,7 +147,7 @@ ASSUMPTIONS = ['machine arithmetic wraps in the delta coders (C++ calls the over
 NOT_DECIDED = ['whole-file round trip through Writer/Reader (threads, compression, protobuf assembly)', 'option matrix as executions', 'block size accounting (recorded finding F9)', 'XML attribute formatting']
 LEVEL_TEXT = ('Proof for codec pairs: one step of delta encoding followed by delta decoding returns the value and keeps both states equal, for every instantiation pair the PBF writer and reader use '
               '(including the mixed-width uid pair), under wrap-around arithmetic; the dense-node serialiser writes exactly the enabled metadata columns and the visible flags exactly when the history '
-              'flag is set, for all 64 option combinations; the PBF header bounding box conversion (through double) is checked against the reader for every valid coordinate. Other pairs are decided under C13 '
+              'flag is set, for all 64 option combinations; the Info message of ways, relations and non-dense nodes carries exactly the enabled fields with the attribute values of the object; the PBF header bounding box conversion (integer arithmetic since the F22 repair) is checked against the reader for every valid coordinate. Other pairs are decided under C13 '
               '(numbers, coordinates), C14 (strings) and C02 (PBF metadata ranges, lat/lon with block parameters).')
 LEVEL_NOTE = ('Trusted: CBMC, extraction rules, protozero, compression libraries, expat. The statement is about whole files; only leaf codec pairs are decided. Not decided: Writer/Reader pipeline, option matrix as executions, '
               'block size accounting, XML formatting.')
